@@ -12,12 +12,15 @@ The plugin writes the LPC files of every case into the run's mudlib copy (/c07/g
 `ld o pK` into `ld o /c07/g/<case>/pK` for the harness.
 """
 import hashlib
+import json
 import os
 import re
 import shutil
+import subprocess
 
 from nvlib import engine as E
 from nvlib.check import Prop
+from nvlib.extract import TieBroken
 
 MODS = ["-", "static", "private", "protected", "public"]
 
@@ -147,6 +150,146 @@ def parse_graph(lines):
     return g, order
 
 
+# --------------------------------------------------------------------------------------------
+# T4 for C07: the body of function_visible() (src/apply.c) is regenerated from the clang AST into NV/Gen/C07.lean.
+# Grammar accepted:  { switch (<param>) { (case K:)+ stmt* }* [default: stmt*]  }  return <int>; }
+#   stmt   ::=  break; | return <int>; | if (<expr>) return <int>;           (a non-empty group must end in break/return)
+#   expr   ::=  <param> | <int> | expr & expr | expr | expr | (expr) | !expr | expr == expr | expr != expr | expr && expr | expr || expr
+# Anything else is a broken tie (TieBroken) -> search stage.
+
+def _ast_of_function(bdir, relsrc, fn):
+    src = os.path.join(E.REPO, relsrc)
+    cmd = ["clang-14", "-Xclang", "-ast-dump=json", "-Xclang", "-ast-dump-filter=" + fn, "-fsyntax-only",
+           "-DHAVE_CONFIG_H", "-D_GNU_SOURCE", "-D" + E.GUARD, "-w"] + E.include_flags(bdir) + [src]
+    p = subprocess.run(cmd, capture_output=True, text=True)
+    if p.returncode != 0:
+        raise TieBroken("ast:" + fn, "clang cannot parse %s: %s" % (relsrc, p.stderr[-800:]))
+    dec = json.JSONDecoder()
+    s, i, found = p.stdout, 0, None
+    while i < len(s):
+        while i < len(s) and s[i].isspace():
+            i += 1
+        if i >= len(s):
+            break
+        o, i = dec.raw_decode(s, i)
+        if o.get("kind") == "FunctionDecl" and o.get("name") == fn and any(
+                c.get("kind") == "CompoundStmt" for c in o.get("inner", [])):
+            found = o
+    if found is None:
+        raise TieBroken("fn:" + fn, "function %s with a body not found in %s" % (fn, relsrc))
+    return found
+
+
+def _strip(n):
+    while n.get("kind") in ("ParenExpr", "ImplicitCastExpr", "ConstantExpr", "CStyleCastExpr") and n.get("inner"):
+        n = n["inner"][-1]
+    return n
+
+
+def _expr(n, params, site):
+    """C expression -> (lean text, is_bool)"""
+    n = _strip(n)
+    k = n.get("kind")
+    if k == "IntegerLiteral":
+        return str(int(n["value"])), False
+    if k == "DeclRefExpr":
+        nm = (n.get("referencedDecl") or {}).get("name")
+        if nm in params:
+            return nm, False
+        raise TieBroken(site, "reference to %s is outside the grammar" % nm)
+    if k == "UnaryOperator" and n.get("opcode") == "!":
+        t, b = _expr(n["inner"][0], params, site)
+        return ("(!%s)" % t) if b else ("(%s == 0)" % t), True
+    if k == "BinaryOperator":
+        op = n.get("opcode")
+        (a, ab), (b, bb) = _expr(n["inner"][0], params, site), _expr(n["inner"][1], params, site)
+        tob = lambda t, isb: t if isb else "(%s != 0)" % t
+        if op in ("&", "|") and not ab and not bb:
+            return "(%s %s %s)" % (a, {"&": "&&&", "|": "|||"}[op], b), False
+        if op in ("==", "!=") and not ab and not bb:
+            return "(%s %s %s)" % (a, op, b), True
+        if op in ("&&", "||"):
+            return "(%s %s %s)" % (tob(a, ab), op, tob(b, bb)), True
+    raise TieBroken(site, "expression node %s %s is outside the grammar" % (k, n.get("opcode", "")))
+
+
+def gen_function_visible(bdir):
+    site = "guard:function_visible"
+    fn = _ast_of_function(bdir, "src/apply.c", "function_visible")
+    params = [c["name"] for c in fn["inner"] if c.get("kind") == "ParmVarDecl"]
+    body = [c for c in fn["inner"] if c.get("kind") == "CompoundStmt"][0].get("inner", [])
+    if len(params) != 2 or len(body) != 2 or body[0].get("kind") != "SwitchStmt" or body[1].get("kind") != "ReturnStmt":
+        raise TieBroken(site, "function_visible is no longer `switch (..) {..} return k;`")
+
+    def ret_val(r):
+        v = _strip(r["inner"][0])
+        if v.get("kind") != "IntegerLiteral":
+            raise TieBroken(site, "return of a non-literal")
+        return "true" if int(v["value"]) != 0 else "false"
+
+    after = ret_val(body[1])
+    sw = body[0]["inner"]
+    cond, _ = _expr(sw[0], params, site)
+    if cond != params[0]:
+        raise TieBroken(site, "switch is not on the first parameter")
+    groups = []          # (labels or None for default, [stmts])
+    for st in sw[-1].get("inner", []):
+        k = st.get("kind")
+        if k in ("CaseStmt", "DefaultStmt"):
+            labels = []
+            cur = st
+            while cur.get("kind") in ("CaseStmt", "DefaultStmt"):
+                if cur["kind"] == "CaseStmt":
+                    lab = _strip(cur["inner"][0])
+                    if lab.get("kind") != "IntegerLiteral":
+                        raise TieBroken(site, "case label is not an integer constant")
+                    labels.append(int(lab["value"]))
+                    cur = cur["inner"][-1]
+                else:
+                    labels.append(None)
+                    cur = cur["inner"][-1]
+            if groups and groups[-1][1] and groups[-1][1][-1].get("kind") not in ("BreakStmt", "ReturnStmt"):
+                raise TieBroken(site, "fall-through out of a non-empty case group")
+            if groups and not groups[-1][1]:
+                labels = groups.pop()[0] + labels
+            groups.append((labels, [cur]))
+        else:
+            if not groups:
+                raise TieBroken(site, "statement before the first case label")
+            groups[-1][1].append(st)
+
+    def stmts(sts):
+        if not sts:
+            return after
+        st = sts[0]
+        k = st.get("kind")
+        if k == "BreakStmt":
+            return after
+        if k == "ReturnStmt":
+            return ret_val(st)
+        if k == "IfStmt" and len(st["inner"]) == 2 and st["inner"][1].get("kind") == "ReturnStmt":
+            c, isb = _expr(st["inner"][0], params, site)
+            c = c if isb else "(%s != 0)" % c
+            return "(if %s then %s else %s)" % (c, ret_val(st["inner"][1]), stmts(sts[1:]))
+        raise TieBroken(site, "statement %s is outside the grammar" % k)
+
+    default = after
+    lines = []
+    for labels, sts in groups:
+        if None in labels:
+            default = stmts(sts)
+        real = [l for l in labels if l is not None]
+        if real:
+            lines.append(("(" + " || ".join("%s == %d" % (params[0], l) for l in real) + ")", stmts(sts)))
+    text = "/-- GENERATED from the clang AST of `function_visible` (src/apply.c): the origin / flags decision of apply_low -/\n"
+    text += "def functionVisibleGen (%s %s : Nat) : Bool :=\n" % (params[0], params[1])
+    for c, r in lines:
+        text += "  if %s then %s else\n" % (c, r)
+    text += "  %s\n" % default
+    return text
+
+
+
 class C07(Prop):
     id = "C07"
     title = "calls reach the right function and respect visibility, whatever came before"
@@ -195,6 +338,9 @@ class C07(Prop):
                    "varargs / argument count normalisation (setup_variables) is outside the model",
                    "program deallocation and reuse of a program_t address while a cache entry still names it",
                    "programs loaded from saved binaries (see C17)"]
+
+    def gen_extra(self, ctx, bdir):
+        return gen_function_visible(bdir)
 
     # ---- implementation side ---------------------------------------------------------------
     def prepare(self, ctx):
